@@ -33,11 +33,11 @@ theorem C12_pickle_load (f : PickleFile) (levels : Bool)
     (hwf : PickleWF f) (hr : RootsResolvable f)
     (lm : List (Nat × Nat)) (m1 : Mgr)
     (hv : loadVars levels f.vars.length f.vars [] m = (.ok lm, m1))
-    (hg : Contig m1.tbl) :
+    (hg : Contig m1.tbl) (hperm : levels = true → levelsPermutation f.vars = true) :
     ∃ roots' m', loadPickle f levels m = (.ok roots', m') ∧ Inv m' ∧ DmpVarsBij m'.tbl ∧
       Contig m'.tbl ∧ m'.ctx = false ∧ (∀ u n, m.tbl.node? u = some n → m'.tbl.node? u = some n) ∧
       LoadedFrom f m'.tbl roots' :=
-  pickle_load f levels m hI hb hc hwf hr lm m1 hv hg
+  pickle_load f levels m hI hb hc hwf hr lm m1 hv hg hperm
 
 /-- `pickle_roundtrip` (general): dump the container `roots` of `src`, load the content into
 `tgt`: same container shape, every member denotes — by variable name — the dumped function;
@@ -172,20 +172,22 @@ the caller, the counts are exact for the SAME ledger -/
 theorem C12_load_target_counts_bdd (ext : Nat → Nat) (f : PickleFile) (levels : Bool)
     (m : Mgr) (hI : Inv m) (hx : RefExact m ext) (hb : DmpVarsBij m.tbl) (hc : m.ctx = false)
     (hwf : PickleWF f) (hr : RootsResolvable f) (lm : List (Nat × Nat)) (m1 : Mgr)
-    (hv : loadVars levels f.vars.length f.vars [] m = (.ok lm, m1)) (hg : Contig m1.tbl) :
+    (hv : loadVars levels f.vars.length f.vars [] m = (.ok lm, m1)) (hg : Contig m1.tbl)
+    (hperm : levels = true → levelsPermutation f.vars = true) :
     ∃ roots' m', loadPickle f levels m = (.ok roots', m') ∧ Inv m' ∧ RefExact m' ext ∧
       LoadedFrom f m'.tbl roots' :=
-  pickle_load_counts ext f levels m hI hx hb hc hwf hr lm m1 hv hg
+  pickle_load_counts ext f levels m hI hx hb hc hwf hr lm m1 hv hg hperm
 
 /-- `dd.autoref.BDD.load` (pickle): each returned `Function` holds one reference, everything
 else nets to zero -/
 theorem C12_load_target_counts_autoref_pickle (ext : Nat → Nat) (f : PickleFile) (levels : Bool)
     (m : Mgr) (hI : Inv m) (hx : RefExact m ext) (hb : DmpVarsBij m.tbl) (hc : m.ctx = false)
     (hwf : PickleWF f) (hr : RootsResolvable f) (lm : List (Nat × Nat)) (m1 : Mgr)
-    (hv : loadVars levels f.vars.length f.vars [] m = (.ok lm, m1)) (hg : Contig m1.tbl) :
+    (hv : loadVars levels f.vars.length f.vars [] m = (.ok lm, m1)) (hg : Contig m1.tbl)
+    (hperm : levels = true → levelsPermutation f.vars = true) :
     ∃ roots' m', loadPickleAutoref f levels m = (.ok roots', m') ∧ Inv m' ∧
       RefExact m' (extAdd ext (roots'.values.map Int.natAbs)) ∧ LoadedFrom f m'.tbl roots' :=
-  pickleAutoref_counts ext f levels m hI hx hb hc hwf hr lm m1 hv hg
+  pickleAutoref_counts ext f levels m hI hx hb hc hwf hr lm m1 hv hg hperm
 
 /-- `_copy.load_json` on `dd.autoref` (`load_order=False`, reordering not enabled): the `+1` of
 `_make_node` and every temporary are released; each returned `Function` holds one reference -/
